@@ -11,9 +11,9 @@
 (c) the 94 `fail: true` cases of the yaml-test-suite must be rejected.
 Tie: the Coq model pipeline (`mx events str`) rejects the same inputs at the same position.
 Known findings (known_findings_c06.jsonl): decidable predicates on the damaged text; only the classes with status `known`
-(2: implicit key > 1024 characters in a flow sequence, flow continuation line at the block indentation) print
-KNOWN-FINDING and exit 0, any other acceptance is a violation -- in particular of the two classes repaired in /repo
-(c5ad60c stray closer behind an empty explicit key, ad74b3e multi-line flow pair key behind a flow mapping)."""
+(1: flow continuation line at the block indentation) print KNOWN-FINDING and exit 0, any other acceptance is a
+violation -- in particular of the three classes repaired in /repo (c5ad60c stray closer behind an empty explicit key,
+ad74b3e multi-line flow pair key behind a flow mapping, 57aa316 implicit key > 1024 characters in a flow sequence)."""
 import json
 import os
 import re
@@ -825,16 +825,12 @@ OPS = [
 # ------------------------------------------------------------------------------------------------
 # known findings: decidable predicates on the damaged text
 # ------------------------------------------------------------------------------------------------
-_LONGKEY = re.compile(r"(k{1021,}['\"]?): v \]")
-
-# Two classes recorded earlier are repaired in /repo and suppress nothing any more (known_findings_c06.jsonl lists them as
-# `fixed`): the stray closer behind an empty explicit key (c5ad60c) and the multi-line flow pair key behind an earlier flow
-# mapping (ad74b3e).  Their operator variants (03/stray-closer-after-empty-explicit-key, 07/*-flow-pair-key-on-two-lines)
-# and the fixed witnesses below are ordinary test streams now: an acceptance is a VIOLATION.
+# Three classes recorded earlier are repaired in /repo and suppress nothing any more (known_findings_c06.jsonl lists them as
+# `fixed`): the stray closer behind an empty explicit key (c5ad60c), the multi-line flow pair key behind an earlier flow
+# mapping (ad74b3e) and the implicit key of more than 1024 characters as single pair of a flow sequence (57aa316).  Their
+# operator variants (03/stray-closer-after-empty-explicit-key, 07/*-flow-pair-key-on-two-lines, 08/flow-pair-key-*) and the
+# fixed witnesses below are ordinary test streams now: an acceptance is a VIOLATION.
 PREDICATES = {
-    # an implicit key of more than 1024 characters as single pair of a flow sequence
-    "long-implicit-key-in-flow-sequence":
-        lambda cls, var, text: cls == "08-long-key" and var.startswith("flow-pair-key") and bool(_LONGKEY.search(text)),
     # a continuation line of a flow collection exactly AT the indentation of the enclosing block entry, not starting with
     # a plain scalar, after a plain scalar was scanned inside the collection
     "flow-continuation-at-block-indentation":
@@ -912,6 +908,24 @@ def check_C06(tier, seed):
         res.add_tie_break("the generator of well-formed streams no longer matches the implementation: only %d of %d bases accepted"
                           % (len(accepted), len(bases)), samples=[bases[k][2][:300] for k in rejected[:5]])
 
+    # ---- (a2) legal neighbours of the repaired damage classes must stay accepted (the repairs do not reject too much;
+    #      Properties/C06.v states it for the model: C06_empty_explicit_key_accepted, C06_long_flow_pair_key_text_rejected) ----
+    legal = ["[ ? ]", "[ ? : x ]\n", "[ " + "k" * 1024 + ": v ]\n", "[ \"" + "k" * 1022 + "\": v ]\n",
+             "{ " + "k" * 1025 + ": v }\n", "[ ? " + "k" * 1025 + " : v ]\n", "[ {" + "k" * 1025 + ": v} ]\n",
+             "[ a: b, c: d ]\n", "{}\n---\n[ a: v ]\n", "[ a ]\n", "{ a: [ b ] }\n"]
+    ll = [enc(t) for t in legal]
+    l_str, l_iter, l_load, l_mx = (run_hx(["events", "str"], ll), run_hx(["events", "iter"], ll),
+                                   run_hx(["load", "yaml", "eager"], ll), run_mx(["events", "str"], ll))
+    for k, t in enumerate(legal):
+        res.evaluations += 1
+        if not (l_str[k].endswith("|OK") and l_iter[k].endswith("|OK") and l_load[k].startswith("OK")):
+            res.add_tie_break("a legal neighbour of a repaired damage class is rejected by the implementation (the model theorems "
+                              "state acceptance)", case=t[:80] + ("..." if len(t) > 80 else ""), impl=split_line(l_str[k])[1][:200])
+        if split_line(l_mx[k])[0] != split_line(l_str[k])[0] or fin_pos(split_line(l_mx[k])[1]) != fin_pos(split_line(l_str[k])[1]):
+            res.add_tie_break("correspondence on a legal neighbour stream: model pipeline != implementation", case=t[:80],
+                              model=l_mx[k][-300:], impl=l_str[k][-300:])
+    res.coverage["legal_neighbours_accepted"] = sum(1 for k in range(len(legal)) if l_str[k].endswith("|OK"))
+
     # ---- (b) damage ----
     cases = []      # (class, variant, text, base index)
     dseen = set()
@@ -940,7 +954,25 @@ def check_C06(tier, seed):
         ("03-mismatched-closer", "stray-closer-after-empty-explicit-key", "[a, ? ] ]\n"),
         ("03-mismatched-closer", "stray-closer-after-empty-explicit-key", "k: [ ? ] ]\n"),
         ("03-mismatched-closer", "stray-closer-after-empty-explicit-key", "[ ? ] , ]\n"),
-        ("04-tab-indent", "witness", "a:\n\tb: 1\n"), ("05-misindent", "witness", "a:\n  b: 'x'\n c: 1\n"),
+        # regression witnesses of /repo 88700d3 ("[ : } ]" was accepted as [{~: ~}]: the scanner popped the flow level at a
+        # closer of the wrong kind and the parser missed the mismatch behind an implicit pair); now a scan error at the closer
+        ("03-mismatched-closer", "wrong-closer-behind-implicit-pair", "[ : } ]\n"),
+        ("03-mismatched-closer", "wrong-closer-behind-implicit-pair", "[ a: b } ]\n"),
+        ("03-mismatched-closer", "wrong-closer-behind-implicit-pair", "[ ? a } ]\n"),
+        ("03-mismatched-closer", "wrong-closer-behind-implicit-pair", "- [ : } ]\n"),
+        ("03-mismatched-closer", "wrong-closer-behind-implicit-pair", "{ a: [ : } }\n"),
+        ("03-mismatched-closer", "witness", "[ a }\n"), ("03-mismatched-closer", "witness", "{ a ]\n"),
+        ("04-tab-indent", "witness", "a:\n\tb: 1\n"),
+        # [69] s-flow-line-prefix(n) = s-indent(n) ...: a continuation line of a plain scalar inside a flow collection that is
+        # nested in a block collection must be indented by SPACES beyond the block's indentation; a TAB in those columns is
+        # not indentation (seeded change C06-3 dropped exactly this test for flow context)
+        ("04-tab-indent", "tab-in-flow-continuation", "- [\n foo\n\tbar\n ]\n"),
+        ("04-tab-indent", "tab-in-flow-continuation", "a:\n  [ foo\n\tbar ]\n"),
+        ("04-tab-indent", "tab-in-flow-continuation", "k: {\n  a: foo\n\tbar\n  }\n"),
+        ("04-tab-indent", "tab-in-flow-continuation", "- - [ a\n\tb ]\n"),
+        ("04-tab-indent", "tab-in-flow-continuation", "- {a: b\n\tc}\n"),
+        ("04-tab-indent", "tab-in-flow-continuation", "a:\n - [ p\n\t\tq ]\n"),
+        ("05-misindent", "witness", "a:\n  b: 'x'\n c: 1\n"),
         ("06-flow-indent", "witness", "k:\n  j: [a,\n  b]\n"), ("06-flow-indent", "witness", "k: [a,\nb]\n"),
         ("07-multiline-key", "witness", "\"a\n  b\": 1\n"),
         # regression witnesses of /repo ad74b3e (were accepted once any '{' had been seen, also in an earlier document)
@@ -951,6 +983,14 @@ def check_C06(tier, seed):
         ("07-multiline-key", "plain-flow-pair-key-on-two-lines", "{ x: [ a\n b: v ] }\n"),
         ("07-multiline-key", "plain-flow-pair-key-on-two-lines", "[ ? x : y, a\n b: v ]\n"),
         ("08-long-key", "witness", "k" * 1025 + ": v\n"),
+        # regression witnesses of /repo 57aa316 (were accepted: no length limit for the implicit key of a flow-sequence pair)
+        ("08-long-key", "flow-pair-key-plain", "[ " + "k" * 1025 + ": v ]\n"),
+        ("08-long-key", "flow-pair-key-quoted", "[ \"" + "k" * 1023 + "\": v ]\n"),
+        ("08-long-key", "flow-pair-key-quoted", "[ '" + "k" * 1023 + "': v ]\n"),
+        ("08-long-key", "flow-pair-key-plain", "[ a, " + "k" * 2048 + ": v ]\n"),
+        ("08-long-key", "flow-pair-key-plain", "- {}\n- [ " + "k" * 1025 + ": v ]\n"),
+        ("08-long-key", "flow-pair-key-plain", "{ x: [ " + "k" * 1025 + ": v ] }\n"),
+        ("08-long-key", "flow-pair-key-plain", "k: [ {x: 1}, " + "k" * 1025 + ": v ]\n"),
         ("09-second-root", "witness", "'a'\n'b'\n"), ("09-second-root", "witness", "[a]\n[b]\n"),
         ("10-bad-escape", "witness", "\"\\q\"\n"), ("10-bad-escape", "witness", "\"\\x4\"\n"),
         ("11-dangling-alias", "witness", "*a\n"), ("11-dangling-alias", "witness", "&a x\n---\n*a\n"),
